@@ -77,3 +77,55 @@ theorem foldl_mergeMax_perm {l₁ l₂ : List (List Nat)} (p : l₁.Perm l₂) (
   rw [mergeMax_assoc, mergeMax_comm x y, ← mergeMax_assoc]
 
 end PlzVerif.Coverage
+
+namespace PlzVerif.Coverage
+
+/-! ### The index-based Go loop equals the structural definition -/
+
+/-- State of the Go loop after consuming a prefix: `ret` and the loop index. -/
+def loopStep (cmp : Nat → Nat → Bool) (acc : List Nat × Nat) (line : Nat) : List Nat × Nat :=
+  let (ret, i) := acc
+  if i ≥ ret.length then (ret ++ [line], i + 1)
+  else if cmp line (ret.getD i 0) then (ret.set i line, i + 1)
+  else (ret, i + 1)
+
+theorem mergeLoop_eq_foldl (cmp) (existing coverage : List Nat) :
+    mergeLoop cmp existing coverage = (coverage.foldl (loopStep cmp) (existing, 0)).1 := rfl
+
+/-- Generalised loop invariant: with a processed prefix `pre` already in place, the loop over `cov`
+    starting at index `pre.length` rewrites exactly the remaining suffix by `mergeWith`. -/
+theorem loop_invariant (cmp : Nat → Nat → Bool) : ∀ (cov pre rest : List Nat),
+    (cov.foldl (loopStep cmp) (pre ++ rest, pre.length)).1 = pre ++ mergeWith cmp rest cov
+  | [], pre, rest => by cases rest <;> simp [mergeWith]
+  | y :: ys, pre, [] => by
+    have h := loop_invariant cmp ys (pre ++ [y]) []
+    simp only [List.foldl_cons, loopStep, List.append_nil, Nat.le_refl, ge_iff_le, if_true]
+    simp only [List.append_nil, List.length_append, List.length_cons, List.length_nil] at h
+    rw [h]
+    cases ys <;> simp [mergeWith]
+  | y :: ys, pre, x :: xs => by
+    have hlt : ¬ (pre.length ≥ (pre ++ x :: xs).length) := by simp
+    simp only [List.foldl_cons, loopStep, hlt, if_false]
+    have hget : (pre ++ x :: xs).getD pre.length 0 = x := by simp [List.getD]
+    rw [hget]
+    by_cases hc : cmp y x = true
+    · simp only [hc, if_true]
+      have hset : (pre ++ x :: xs).set pre.length y = (pre ++ [y]) ++ xs := by
+        simp [List.set_append]
+      rw [hset]
+      have h := loop_invariant cmp ys (pre ++ [y]) xs
+      simp only [List.length_append, List.length_cons, List.length_nil] at h
+      rw [h]; simp [mergeWith, hc]
+    · simp only [hc]
+      have h := loop_invariant cmp ys (pre ++ [x]) xs
+      simp only [List.length_append, List.length_cons, List.length_nil, List.append_assoc, List.singleton_append] at h
+      simp only [Bool.false_eq_true, if_false]
+      rw [h]; simp [mergeWith, hc]
+
+/-- The transcription of the Go loop and the structural model are the same function. -/
+theorem mergeLoop_eq_mergeWith (cmp : Nat → Nat → Bool) (existing coverage : List Nat) :
+    mergeLoop cmp existing coverage = mergeWith cmp existing coverage := by
+  have h := loop_invariant cmp coverage [] existing
+  simpa [mergeLoop_eq_foldl] using h
+
+end PlzVerif.Coverage
